@@ -329,6 +329,7 @@ class Inliner:
         self.counter = 0
         self.log: list[tuple[str, str]] = []  # (caller, helper)
         self.kept_calls: set[str] = set()  # helpers with a call site that was not inlined
+        self.only_module_level = False
 
     # -- which helper does this call reach
     def target(self, r: Resolver, call: ast.Call) -> Optional[FuncInfo]:
@@ -351,6 +352,8 @@ class Inliner:
             return None
         h = ts[0]
         if h.qname == r.fn.qname or not eligible_helper(self.prog, h):
+            return None
+        if self.only_module_level and h.cls is not None:
             return None
         # free globals of the helper must mean the same thing in the caller's module
         if h.module is not r.fn.module:
@@ -452,9 +455,14 @@ class Inliner:
 
     # -- one function
     def run(self, fn: FuncInfo) -> int:
-        if fn.cls is not None and _is_visitor_class(self.prog, fn.cls.qname):
-            return 0
         r = Resolver(self.prog, fn)
+        if fn.cls is not None and _is_visitor_class(self.prog, fn.cls.qname):
+            # hooks are modelled interprocedurally (sa/hooks.py); only pure module-level expression helpers are substituted
+            self.only_module_level = True
+            try:
+                return self._expr_helpers(r, fn)
+            finally:
+                self.only_module_level = False
         n = self._block(r, fn, fn.node.body)
         n += self._expr_helpers(r, fn)
         return n
